@@ -454,6 +454,34 @@ func execC12(e *Env, pp any) {
 			}
 		}
 	}
+	// ... and every one of them: for an id the sequence never opens at all, as many
+	// resets as bodies
+	neverOpened := map[int]bool{1: true, 2: true}
+	bodiesFor := map[uint64]int{}
+	for _, q := range p.Seq {
+		if opensStream(RawReq{Shape: q.Shape % numQShapes, ID: q.ID}) {
+			neverOpened[q.ID] = false
+		}
+	}
+	for _, q := range p.Seq {
+		switch q.Shape % numQShapes {
+		case QBody, QOpenWithBody, QBodyTrailer:
+			if neverOpened[q.ID] {
+				bodiesFor[uint64(q.ID)]++
+			}
+		}
+	}
+	for id, nb := range bodiesFor {
+		nr := 0
+		for _, r := range resp {
+			if r.GetId() == id && r.GetReset_() != nil {
+				nr++
+			}
+		}
+		if nr < nb {
+			e.Violate(prop, "no-reset-for-unknown-stream", "stream.every-body", "%d bodies were sent for id %d, which no envelope of the sequence opens; %d resets came back (sequence %v)", nb, id, nr, seqString(p.Seq))
+		}
+	}
 	for id := range needReset {
 		found := false
 		for _, r := range resp {
